@@ -9,9 +9,11 @@ LEVEL = ("Static analysis of linfa-clustering's DBSCAN and OPTICS: (core) every 
          "cluster id is incremented once per seed after its expansion; (self) the count compared with min_points is "
          "incremented for every element of the range query, the query point included; (index) both algorithms obtain their "
          "neighbour index only through the configurable NearestNeighbour and query it with the user's tolerance; (order) the "
-         "result of within_range, documented as unordered, is never indexed by rank without a sort on the distance. Necessary "
+         "result of within_range, documented as unordered, is never indexed by rank without a sort on the distance; a DBSCAN seed is skipped only when already labelled or when its "
+         "neighbour count is below min_points; (once) OPTICS inserts a sample into `processed` in the step that appends it to the "
+         "ordering. Necessary "
          "conditions of 'only core points extend a cluster', 'at least min_points points, itself included', 'neither result "
-         "depends on the choice of neighbour index'. Exactly-once listing and reachability values of OPTICS are not decided.")
+         "depends on the choice of neighbour index'. Reachability values of OPTICS are not decided.")
 ASSUME = ["rustc resolution/typeck; HIR faithfully dumped", "independence from the index kind additionally relies on C07 (R-C07-edge)"]
 
 QUEUE_INS = {"push_back", "push_front", "extend", "append", "push", "insert"}
